@@ -1,12 +1,12 @@
 SPECIFICATION TSpec
 CONSTANTS
  L = 3
- Chains <- TChains
- Closed <- TClosed
+ History <- THistory
  Grid <- TGrid
  Bundle <- TBundle
  MaxIter = 80
  MaxReject = 1000000
+ Force = FALSE
  Dev <- NoDev
 INVARIANT StepOne
 INVARIANT InBox
@@ -14,6 +14,7 @@ INVARIANT NoOverlap
 INVARIANT RootOnGrid
 INVARIANT Contiguous
 INVARIANT Final
+INVARIANT ForceWithinLimit
 INVARIANT Mark
 INVARIANT Prog
 POSTCONDITION Accepted
